@@ -35,9 +35,9 @@ type Stats struct {
 	Known      map[string]int64 `json:"known"`
 	Violations []Violation      `json:"violations"`
 	Samples    []interface{}    `json:"samples"`
-	Hashes     []uint64         `json:"-"` // hashes of non-trivial cases (distinctness)
-	Hashes2    []uint64         `json:"-"` // second measure (e.g. interleavings)
-	Trouble    []string         `json:"trouble"` // harness trouble: leads to exit 2
+	Hashes     []uint64         `json:"-"`               // hashes of non-trivial cases (distinctness)
+	Hashes2    []uint64         `json:"-"`               // second measure (e.g. interleavings)
+	Trouble    []string         `json:"trouble"`         // harness trouble: leads to exit 2
 	Sites      []int32          `json:"sites,omitempty"` // yield sites (statements of the instrumented code) executed at least once
 }
 
@@ -45,8 +45,8 @@ func NewStats() *Stats {
 	return &Stats{Faults: map[string]int64{}, Probes: map[string]int64{}, Known: map[string]int64{}}
 }
 
-func (s *Stats) Fault(k string)        { s.Faults[k]++ }
-func (s *Stats) Probe(k string)        { s.Probes[k]++ }
+func (s *Stats) Fault(k string)           { s.Faults[k]++ }
+func (s *Stats) Probe(k string)           { s.Probes[k]++ }
 func (s *Stats) ProbeN(k string, n int64) { s.Probes[k] += n }
 
 // Sample keeps up to max samples.
@@ -299,4 +299,22 @@ func ApplyEnv(env map[string]string) func() {
 			}
 		}
 	}
+}
+
+// DrawClock picks the clock jumps of a case (nanoseconds; the k-th call or load of the case is preceded by jump
+// k mod len): nil for two cases in three. Only used when the tree under test reads the clock at all.
+func DrawClock(h uint64) []int64 {
+	if h%3 != 0 {
+		return nil
+	}
+	h /= 3
+	const ms, s = int64(1e6), int64(1e9)
+	vals := []int64{0, ms, 999 * ms, s, 59 * s, 61 * s, 3601 * s, 86401 * s, 31 * 86400 * s, 366 * 86400 * s, 5 * s, 301 * s}
+	n := 1 + int(h%4)
+	out := make([]int64, n)
+	for i := range out {
+		h = h*6364136223846793005 + 1442695040888963407
+		out[i] = vals[(h>>33)%uint64(len(vals))]
+	}
+	return out
 }
